@@ -68,7 +68,7 @@ var propCfgs = map[string]propCfg{
 	"C08": {Profile: "tx", Level: "exploration", Quick: 4000, Thorough: 300000},
 	"C09": {Profile: "integrity", Level: "exploration", Quick: 5000, Thorough: 300000},
 	"C17": {Profile: "snap", Level: "exploration", Quick: 3000, Thorough: 150000},
-	"C18": {Profile: "conc", Level: "exploration", Quick: 4000, Thorough: 60000, Race: true},
+	"C18": {Profile: "conc", Level: "exploration", Quick: 10000, Thorough: 60000, Race: true},
 }
 
 // ---------- worker ----------
